@@ -9,7 +9,8 @@ CHECKS = {
         text="Lean theorems: the model of every UnitValue / UnitArray operator method (forward and reflected, _neg/_inv, **, "
              "comparisons, Python's dispatch) is a homomorphism onto exact arithmetic on SI values and dimension vectors for all "
              "expression trees, all valid unit systems and all integer dimension vectors; dimensionally meaningless operations are "
-             "errors (the SI value of scalar ** is a hypothesis of the tree theorem, its dimension rule is proved); operator "
+             "errors; ** : unconditional for integer exponents, for non-integer exponents under the stated (satisfiable) contract "
+             "of the trusted float power; comparisons for all pairings incl. arrays; operator "
              "wiring regenerated from units.py. Tie: translator group UnitsOps + correspondence on random "
              "expression trees and an exhaustive operator x pairing table + per-node SI oracle on the real code.",
         note="Lean kernel + {propext, Classical.choice, Quot.sound}; translator; correspondence harness; float rounding within "
